@@ -18,12 +18,14 @@ LEVEL_TEXT = ("Bounded contract checking of the statement on the real Pipeline: 
               "functions_under_contract): at_least_tuple, _default_output_picker (the i-th element of a tuple result "
               "is handed out for the i-th output name) and _update_all_results (a tuple result is entered under every "
               "one of its names, each picked by that name, every other entry untouched; the output_picker is an "
-              "assumed pure callable). Category 'other' = a few "
+              "assumed pure callable) and Pipeline._get_func_args (every parameter gets its bound value, else the "
+              "supplied keyword, else the upstream output, else the default, and ValueError exactly when none "
+              "exists; the recursive Pipeline._run is an assumed contract). Category 'other' = a few "
               "discharged leaf contracts + bounded checking of the statement; it is not a proof of C02.")
 LEVEL_NOTE = ("Bounds: 1..4 functions (quick 1..3 for the all-orders part), <=3 parameters each, roots {x,y,z}; values are "
               "tagging strings. Trusted: the reference evaluator rtc/dag.py::refeval; networkx.")
 TECHNIQUE = ("bounded contract checking of the statement-level contract (tagging bodies + reference evaluator); leaf "
-             "at_least_tuple, _default_output_picker and _update_all_results discharged by z3")
+             "at_least_tuple, _default_output_picker, _update_all_results and _get_func_args discharged by z3")
 EXPLANATION = LEVEL_TEXT
 RULE = ("random DAGs from rtc.dag.gen_dag; per DAG all outputs x all arg_combinations x all listing orders (n<=3) x "
         "{pipeline(), run, func}; distinct = distinct (DAG, order, output, combination); non-trivial = the evaluation "
@@ -56,7 +58,9 @@ def proof_items():
     from contracts import pipeline_call
     return [ProofItem(misc.at_least_tuple, gen=_alt_gen), ProofItem(misc.default_output_picker, gen=_dop_gen),
             # routing tuple outputs by name: how a function's result enters the results of one evaluation
-            ProofItem(pipeline_call.update_all_results, gen=pipeline_call.gen)]
+            ProofItem(pipeline_call.update_all_results, gen=pipeline_call.gen),
+            # the resolution order: bound value, else supplied keyword, else upstream output, else default
+            ProofItem(pipeline_call.get_func_args, gen=pipeline_call.gfa_gen)]
 
 
 def _cases(tier, rng):
